@@ -129,6 +129,9 @@ def run_variant(base, desc, v, shimdir, extra_files=None, reports=None):
         p = root / rel
         p.parent.mkdir(parents=True, exist_ok=True)
         p.write_text(text)
+    for ln, tg in desc.get("hardlinks", []):
+        (root / ln).parent.mkdir(parents=True, exist_ok=True)
+        os.link(root / tg, root / ln)
     ee = env_for(shimdir, v)
     out = {}
     args = []
@@ -362,8 +365,19 @@ def gen_desc(rng, scratch):
                 inc += rng.choice([["-I", dn], ["-I" + dn], ["-isystem", dn]])
             desc["platforms"][pname].append({"file": "c14_arch_user.c", "directory": ".",
                                              "arguments": ["gcc"] + inc + ["-c", "c14_arch_user.c"]})
+    # two hard-linked names of one file plus a byte-identical copy: all three are members with the same content, so they
+    # form one duplicate group whichever of them the (hash-ordered) grouping loop meets first
+    desc["hardlinks"] = []
+    if rng.random() < 0.5:
+        d = rng.choice(sorted({os.path.dirname(f) for f in desc["texts"]}))
+        body = ["int hard_linked;", "int twice;"]
+        desc["texts"][os.path.join(d, "c14_hl_a.h")] = body
+        desc["texts"][os.path.join(d, "c14_hl_copy.h")] = list(body)
+        desc["hardlinks"].append((os.path.join(d, "c14_hl_b.h"), os.path.join(d, "c14_hl_a.h")))
+        if rng.random() < 0.5:
+            desc["hardlinks"].append(("c14_hl_c.h", os.path.join(d, "c14_hl_a.h")))
     # JSON-clean (tuples -> lists) so that a replay file reproduces it exactly
-    return json.loads(json.dumps({k: desc[k] for k in ("texts", "platforms", "links")}))
+    return json.loads(json.dumps({k: desc[k] for k in ("texts", "platforms", "links", "hardlinks")}))
 
 
 def cli_submit(ctx, pool, scratch, shimdir):
